@@ -250,6 +250,26 @@ def rule_postfail(ctx):
                          if n.id in g.reach(g.succ_on(t[0], "F"), follow_exc=False))
     ctx.check(R, ok, fs.qname, "send failure outside the handshake re-raises the socket error",
               "a socket error while sending application data must be re-raised", fs.loc())
+    # the fatal alert of _sendError really leaves: callers build flights with write buffering on, so the
+    # alert is either sent unbuffered (buffering switched off on every path to the send) or flushed
+    # before the exception is raised - closing the socket is not guaranteed (closeSocket=False)
+    se = ctx.index.func(TLSREC + "_sendError")
+    gs = ctx.an.cfg(se)
+    sends = consumes_of(gs, "_sendMsg")
+    rs = [n for n in gs.nodes if n.kind == "raise" and "TLSLocalAlert" in norm(n.ast)]
+    if not sends or not rs:
+        raise AnalysisError("C17.POSTFAIL: _sendError anchors not found")
+    off = [n for n in gs.nodes if n.kind == "stmt" and norm(n.ast) == "self.sock.buffer_writes = False"]
+    on = [n for n in gs.nodes if n.kind == "stmt" and isinstance(n.ast, ast.Assign)
+          and any(attr_chain(t) == "self.sock.buffer_writes" for t in n.ast.targets) and n not in off]
+    flushes = [n for n in gs.nodes if n.kind == "stmt" and "self.sock.flush()" in norm(n.ast)]
+    unbuffered = not on and sends[0].id not in gs.reach([gs.entry], blocked=off)
+    flushed = all(r.id not in gs.reach(gs.normal_succ(sends[0]), blocked=flushes, follow_exc=False) for r in rs) \
+        and bool(flushes)
+    ctx.check(R, unbuffered or flushed, se.qname, "the fatal alert is written through (unbuffered or flushed)",
+              "_sendError can queue its alert in the write buffer and raise without flushing it: with "
+              "closeSocket=False (or a transport that is not closed) the peer never receives the fatal alert",
+              se.loc(sends[0].ast) if sends[0].ast is not None else se.loc())
 
 
 def rule_closed(ctx):
